@@ -77,6 +77,29 @@ def cases(rnd, quick):
         if r > 0.6:
             hist = hist + [['stop', 1], ['run', 1, 4]]          # stop() on a stopped manager, then run again
         yield prog, hist
+    # a chain that is deeper than the four ticks run() makes after the loop: everything fired as a
+    # consequence of stopping must still be dispatched before run() returns
+    for place, kind, code in [('started', 'stopmgr', None), ('x0', 'exit', None), ('x1', 'kbint', None), ('x2', 'stop2', None),
+                              ('started', 'stopmgr', 3)]:
+        prog = make_program(place, kind, code, 'after', False, True)
+        n = len(prog['handlers'])
+        names = ['x2', 'y3', 'y4', 'y5', 'y6', 'y7', 'y8', 'y9']
+        for h in prog['handlers'].values():
+            if h['names'] == ['x2']:
+                h['script'] = {'x2': [['fire', {'name': 'y3', 'prio': 0, 'flags': 0, 'ch': None}]]}
+        for i, nm in enumerate(names[1:], 1):
+            nxt = names[i + 1] if i + 1 < len(names) else None
+            prog['handlers'][str(n + i)] = _h([nm], 0, {nm: ([['fire', {'name': nxt, 'prio': 0, 'flags': 0, 'ch': None}]] if nxt else [['ret', 1]])})
+        yield prog, [['run', 1, 4]]
+        yield prog, [['run', 1, 4], ['run', 1, 4]]
+    # stop() called on a child component while the root runs: a manager that is not running -> no effect
+    for code in (None, 3):
+        prog = make_program('none', 'stopmgr', None, 'before', False, True)
+        prog['comps']['2'] = {'chan': 'a'}
+        n = len(prog['handlers'])
+        prog['handlers'][str(n + 1)] = {'comp': 2, 'names': ['x1'], 'chan': None, 'prio': 1, 'script': {'x1': [['stopmgr', code], ['ret', 9]]}}
+        yield prog, [['reg', 2, 1], ['run', 1, 3]]
+        yield prog, [['reg', 2, 1], ['run', 1, 3], ['run', 1, 3]]
     # no stop in the program: a second thread stops the idle loop
     for asf in (False, True):
         prog = make_program('none', 'stopmgr', None, 'before', False, asf)
